@@ -5,10 +5,18 @@ import sys
 HERE = os.path.dirname(os.path.dirname(os.path.abspath(__file__)))
 sys.path.insert(0, HERE)
 
+from props import _identity  # noqa: E402
+
 ID = 'C10'
+# modules whose functions must not keep state between calls (pyvc.statecheck.hidden_state_census, syntactic)
+HIDDEN_STATE_MODULES = ['src.ir.type_utils', 'src.ir.types']
 LEVEL = 'exploration'
-SIDECARS = ['types_sub', 'unify']
-FUNCTIONS = ['src.ir.type_utils._update_type_var_map']
+SIDECARS = ['types_sub', 'types_ctor', 'cfg_common', 'switches', 'unify']
+FUNCTIONS = ['src.ir.type_utils._update_type_var_map',
+             # the variable-free approximation of a bound that unify_types checks assigned types against (get_bound_rec)
+             'src.ir.types._to_type_variable_free']
+# the switch invariants J1/J2 at that construction site are C17's clauses (one of them is a C17 known finding)
+IGNORE_OBLIGATIONS = [r'/inv\[J[12]\]$']
 ASSUMPTIONS = [
     'proved (small part): the binding helper _update_type_var_map refuses exactly the bindings that would give a variable a '
     'second, different type, records the others and leaves every other binding alone. unify_types itself is NOT under a '
@@ -17,6 +25,8 @@ ASSUMPTIONS = [
     'written from the property statement',
 ]
 NOT_UNDER_CONTRACT = ['src.ir.type_utils.unify_types']
+SIDECARS = SIDECARS + [x for x in _identity.SIDECARS if x not in SIDECARS]
+FUNCTIONS = FUNCTIONS + [f for f in _identity.FUNCTIONS if f not in FUNCTIONS]
 TRUSTED = ['dictionary keys: two type parameters are the same key iff they are the same object / equal value of the model '
            '(hash consistency of IR objects assumed); PyEq is the answer of the IR\'s own __eq__']
 
